@@ -21,7 +21,7 @@ def dstr(rd):
 NATIVE = [(0, 0), (1, 0), (5, 0), (15, 0), (16, 1), (17, 1), (33, 2), (64, 1), (100, 3), (400, 20), (400, 0), (-3, 0), (31, 400)]
 
 
-def native_equiv(rep, extra=()):
+def native_equiv(rep, extra=(), repeat=1):
     """Native differential on this host's real threads (schedules not controlled): block API against the sequential API, with a
     watchdog so that a collector that never terminates is observed."""
     base_c = {"lat": 39.0, "lon": -77.0, "gmt": -5.0, "params": {"method": "Isna"}}
@@ -31,12 +31,15 @@ def native_equiv(rep, extra=()):
         a, b = dstr(s0), dstr(s0 + days - 1)
         blk = dict(base_c, api="prayer_times_dt_rng_block", start=a, end=b, min_days=mind)
         seq = dict(base_c, api="prayer_times_dt_rng", start=a, end=b)
-        rb = replay.run([blk], single_timeout=30)[0]
+        # real schedules are not controlled: an order-dependent failure needs repetition (the block call is repeated in one process)
+        reps = replay.run([blk] * repeat, timeout=60 + repeat, single_timeout=30) if repeat > 1 else [replay.run([blk], single_timeout=30)[0]]
+        rs0 = replay.run([seq], single_timeout=30)[0]
+        rb = next((r for r in reps if r.get("days") != rs0.get("days")), reps[0])
         if "timeout" in rb:
             rep.violation("parallel-hang", "prayer_times_dt_rng_block(%s..=%s, min_days_for_pll %d) does not return within %ss (collector never terminates)"
                           % (a, b, mind, rb["timeout"]), [blk], rb)
             return True
-        rs = replay.run([seq], single_timeout=30)[0]
+        rs = rs0
         if "panic" in rb or "crash" in rb:
             rep.violation("parallel-panic", "prayer_times_dt_rng_block(%s..=%s, %d) panics: %s" % (a, b, mind, rb.get("panic")), [blk], rb)
             return True
@@ -65,8 +68,10 @@ def run(rep):
         "delivers in arrival order and returns Err exactly when the queue is empty and every Sender (original and clones, tracked through Clone, "
         "mem::drop and MIR drop of the owning closure) has been dropped; thread::scope joins every task before returning",
         "prayer_times_dt_rng inside a worker is a recording stub (its own correctness is C14 / C01-C13); partition(n) is executed for real",
+        "second obligation family (concrete ranges of -2..3n+2 days x thresholds 0..2, n <= 5): the workers return real per-day maps, so merge logic that "
+        "inspects the partial results (first date, length) is executed; the data is enumerated, the arrival orders are explored exhaustively",
     ]
-    obls = [(daterange.parallel_block, n) for n in ns] + [(daterange.num_days, None)] + [(daterange.partition, k) for k in ns] + [(daterange.rng_api, 24)]
+    obls = [(daterange.parallel_block, n) for n in ns] + [(daterange.parallel_block_concrete, n) for n in ns[:5]] + [(daterange.num_days, None)] + [(daterange.partition, k) for k in ns] + [(daterange.rng_api, 24)]
     results = base.run_obligations(rep, obls, validate=False)
     cands = [c for x in results for c in x["cands"]]
     extra = []
@@ -74,9 +79,14 @@ def run(rep):
         i = c.get("inputs") or {}
         if i.get("start_rd") is not None and i.get("end_rd") is not None:
             d = int(i["end_rd"]) - int(i["start_rd"]) + 1
-            extra += [(d, int(i.get("min_days_for_pll") or 0)), (max(d, 1) * 16, int(i.get("min_days_for_pll") or 0)), (64, 0)]
+            w = max(1, int(i.get("workers") or 1))
+            cpu = os.cpu_count() or 1
+            # the same block structure on this host's worker count: blocks of ceil(d/w) days -> d' with the same number of full blocks + tail
+            bs = -(-max(d, 1) // w)
+            extra += [(d, int(i.get("min_days_for_pll") or 0)), (max(d, 1) * 16, int(i.get("min_days_for_pll") or 0)), (64, 0),
+                      (cpu + 1, 0), (cpu + 1, 1), (2 * cpu + 1, 1), (cpu * bs + 1, 1), (3 * cpu - 1, 1)]
     if cands or any(x["inconclusive"] for x in results) or not quick:
-        if not native_equiv(rep, extra) and cands:
+        if not native_equiv(rep, extra, repeat=300 if cands else 1) and cands:
             rep.inconclusive.append("solver counterexamples of the message-level model were not reproduced on this host's threads; first: %r" % (cands[0],))
     else:
         native_equiv(rep)
@@ -88,5 +98,9 @@ def judge_replay(case, results):
     if any("timeout" in r or "panic" in r or "crash" in r for r in results):
         return True
     if len(cs) == 2 and len(results) == 2:
-        return results[0].get("days") != results[1].get("days")
+        if results[0].get("days") != results[1].get("days"):
+            return True
+        # order-dependent failures need the right schedule: repeat the parallel call
+        more = replay.run([cs[0]] * 300, timeout=400, single_timeout=30)
+        return any(("timeout" in r) or ("panic" in r) or r.get("days") != results[1].get("days") for r in more)
     return False
